@@ -314,13 +314,31 @@ func (s *vspSched) quiescent() (bool, bool, bool) {
 	return true, blocked, closeAlive
 }
 
+// stateStamp summarises what the scheduler knows: number of trace events and every actor's state.
+func (s *vspSched) stateStamp() string {
+	s.mu.Lock()
+	defer s.mu.Unlock()
+	var sb strings.Builder
+	sb.WriteString(strconv.Itoa(s.events))
+	for _, a := range s.actors {
+		sb.WriteByte(' ')
+		sb.WriteString(strconv.Itoa(a.state))
+	}
+	return sb.String()
+}
+
 func (s *vspSched) waitQuiescent() (blocked bool, closeAlive bool, err error) {
 	deadline := time.Now().Add(30 * time.Second)
 	okCount := 0
+	last := ""
 	for {
+		// the goroutine snapshot is only meaningful if nothing the scheduler knows changed around it
+		before := s.stateStamp()
 		q, b, c := s.quiescent()
-		if q {
+		after := s.stateStamp()
+		if q && before == after && (okCount == 0 || last == after) {
 			okCount++
+			last = after
 			if okCount >= 2 {
 				return b, c, nil
 			}
